@@ -17,6 +17,7 @@ import (
 )
 
 var ctx *engine.Ctx
+var stable engine.Stable
 
 func clamp7(v int) byte {
 	if v > 127 {
@@ -119,6 +120,9 @@ func report(sig, ctor string, args []int, m midi.Message, what string) {
 // (status, length, data bytes <= 127) is required (out-of-range system common).
 func judge(lp *loop, kind int, ctor string, args []int, m midi.Message, want []byte, status byte, length int, wCh, wA, wB int, wRel int, wSPP int, send bool) {
 	ctx.Eval()
+	if ok, was, now := stable.Next(m); !ok {
+		report("aliasing:"+ctor, ctor, args, was, "the message returned by the previous constructor call changed when this one was built: now "+engine.Hex(now))
+	}
 	region := "in-range"
 	if want == nil {
 		region = "out-of-range"
